@@ -154,6 +154,7 @@ class Opts(object):
         self.short_last_p = 0.0          # chance per eligible segment of a stated short final chunk ("less data than expected")
         self.common_names_p = 0.3        # chance per world that names come from a tiny fixed pool: files handled one after another
                                          # in a process then share object paths, as files from one measurement setup do
+        self.declared_huge_p = 0.0       # chance per world that the last segment states a chunk of 4 GiB of which only a little was written
         self.long_run_p = 0.0            # chance per world of 100-260 consecutive metadata-less segments (a streamed file)
         self.very_long_run_p = 0.0       # ... of 1000-1300 of them (a fragmented log; deeper than any per-segment recursion)
         self.__dict__.update(kw)
@@ -437,10 +438,34 @@ def gen_spec(rng, o):
         multi_str = lastseg['chunks'] > 1 and any(a[1] and a[2]['type'] == 'str' for a in active)
         if not multi_str:
             lastseg['next_offset'] = 'unknown'
+    if o.declared_huge_p and rng.random() < o.declared_huge_p:
+        _declare_huge(rng, spec, last, o)
     if o.scaling is not None and not huge_done:
         # (value-by-value sensor scalings over a channel of 10^5-10^6 values would only be slow, not different)
         o.scaling(rng, spec, ctype)
     return spec
+
+
+def _declare_huge(rng, spec, last, o):
+    """One more, final segment that states a chunk of a little over 4 GiB (an acquisition set up for a long record) of which
+    only the first rows were written before logging stopped: the lead-in gives the real size ('less data than expected').
+    What is read is the same as with a modest chunk size; what a reader may allocate is what the file holds, not what it
+    states."""
+    prev = spec['segments'][-1]
+    if prev.get('next_offset') == 'unknown' or any(sg.get('layout') == 'daqmx' for sg in spec['segments']):
+        return
+    cands = [p for p, idx in last.items() if idx is not None and idx['type'] not in ('str', 'daqmx')]
+    if not cands:
+        return
+    chosen = sorted(rng.sample(cands, rng.randint(1, min(3, len(cands)))))
+    n = rng.randint(1, 5)
+    row = sum(fmt.size_of(last[p]['type']) for p in chosen)
+    big = 2**32 // row + rng.randint(1, 1000)
+    seg = {'endian': prev['endian'], 'layout': rng.choice(['interleaved', 'contiguous']), 'pad': 0, 'meta': True,
+           'new_obj_list': True, 'chunks': 1, 'short_last': n, 'declared_huge': True,
+           'listed': [{'path': p, 'index': 'full', 'type': last[p]['type'], 'count': big, 'props': []} for p in chosen],
+           'data': {p: [gen_values(rng, last[p]['type'], n, o.ts_range)] for p in chosen}}
+    spec['segments'].append(seg)
 
 
 def gen_world(rng, o, tries=50):
